@@ -40,7 +40,7 @@ def collect : List (Item String) → Except String (List Blk)
   | .garbage :: _ => .error "decode"
 
 def showErr : Err → String
-  | .cannotFind => "notfound" | .decode => "decode" | .read => "read"
+  | .cannotFind => "notfound" | .decode => "decode" | .read => "read" | .originMissing => "origin"
 
 def replyItems : Res (List (Item String)) → String
   | .ok items => match collect items with
@@ -73,6 +73,7 @@ def step (all : List (Chunk String)) : List String → List (Chunk String) × St
   | "db" :: k :: rest => match setDb k rest with | some (db, r) => (db, r) | none => (all, "bad-op")
   | "realdb" :: k :: rest => match setDb k rest with | some (db, r) => (db, r) | none => (all, "bad-op")
   | ["readall"] => (all, replyItems (.ok (readBlocks all)))
+  | ["origin"] => (all, replyItems (readBlocksFromOrigin (fun b => b.slot == 0) all))
   | ["tip"] =>
     (all, match getTip all with
       | .ok none => "ok none"
